@@ -1,5 +1,6 @@
 mod f_astro;
 mod f_block;
+mod f_bounded;
 mod f_goodday;
 mod f_hijri;
 mod f_params;
